@@ -171,7 +171,7 @@ def real_signal_runs():
     tmp = tempfile.mkdtemp(prefix='verif-c14r-')
     cmds = []
     for be in ('fork', 'spawn'):
-        for mode in ('single', 'double') + (('double_block',) if be == 'fork' else ()):
+        for mode in ('single', 'double', 'single_ext') + (('double_block',) if be == 'fork' else ()):
             cmds.append(([sys.executable, os.path.join(HERE, 'intr_real.py'), be, mode, os.path.join(tmp, f'{be}_{mode}.json')],
                          os.path.join(tmp, f'{be}_{mode}.json')))
     out = []
@@ -193,7 +193,7 @@ def real_signal_runs():
             if r['elapsed'] > 1.9:
                 viol.append(dict(what=f'{tag} (tasks that block SIGTERM): run_tasks ended {r["elapsed"]}s after the first signal: it waited for the terminated tasks',
                                  replay=dict(kind='real-signal', rec=r)))
-        elif r['mode'] == 'single':
+        elif r['mode'] in ('single', 'single_ext'):
             if r['finished'] != r['started'] or r['cached'] != r['started'] or not r['cached_load_ok']:
                 viol.append(dict(what=f'{tag}: running tasks {r["started"]} were not drained and cached (finished {r["finished"]}, cached {r["cached"]})',
                                  replay=dict(kind='real-signal', rec=r)))
